@@ -288,9 +288,6 @@ def run(chk):
         "whole-manifest validity is proved for the name/version lines only (C15_manifest_valid_toml_partial); dependency lines are validated per run (table_wf on the regenerated table, manifest_ok on every built case, real cargo on the name cases)",
         "emitter use-line insertion is not modelled separately: the generated Rust is inspected directly",
     ]
-    # TEMPORARY (lead: drop after merging build/kf-C15.json into known_findings.json)
-    if not chk.findings and os.path.exists(os.path.join(vlib.BUILD, "kf-C15.json")):
-        chk.findings = json.load(open(os.path.join(vlib.BUILD, "kf-C15.json")))
     listed = {f["id"]: f for f in chk.findings if f.get("status") == "known"}
     res = chk.proof_stage("C15", allow_axioms=())
     binary = vlib.build_harness("debug")
